@@ -1,5 +1,6 @@
 import DSV.Lemmas.Aggs
 import DSV.Lemmas.StepWF
+import DSV.Lemmas.AggMemo
 /-!
 # C18 — timestamped stream aggregates never go back in time and are carried forward
 
@@ -94,5 +95,54 @@ theorem tsv_monotone (env : Env) (cfg : Cfg) (o0 : Outcome) (rs : List Round) (h
   · intro r o o' hq _ hs; exact tsv_step_round env cfg r hq o o' hs
   · trivial
   · exact hrs
+
+/-! ## the loop of the working tree (with the `attempted` set of repair K8) -/
+
+/-- **The `attempted` set changes no result.**  The aggregation loop as it stands in the working tree
+    (`aggregateAllMemo`: a pair is skipped when an aggregate is stored for it *or* when it has been tried
+    in this round) returns exactly what the loop without that set returns — the same aggregate map,
+    entry for entry and in the same order, the same error, the same panic — for every previous outcome,
+    every set of observations and every list of definitions.  All theorems about `aggregateAll`
+    (`tsv_step`, C01's schedule independence, C02/C15's closed form) therefore speak about the
+    repaired code. -/
+theorem attempted_set_changes_nothing (cfg : Cfg) (prev : Outcome) (so : GoMap Nat (List (Option SV)))
+    (defs : List (Nat × ChanDef)) :
+    (aggregateAllMemo cfg prev so defs).bind (fun st => .ok st.1) = aggregateAll cfg prev so defs := by
+  have h := aggregateAllMemo_rel cfg prev so defs
+  cases hm : aggregateAllMemo cfg prev so defs with
+  | ok st =>
+    obtain ⟨a, att⟩ := st
+    cases hp : aggregateAll cfg prev so defs with
+    | ok a' => rw [hm, hp] at h; exact congrArg GoRes.ok h.1
+    | err e => rw [hm, hp] at h; exact absurd h (by simp [MemoRel])
+    | panic => rw [hm, hp] at h; exact absurd h (by simp [MemoRel])
+  | err e =>
+    cases hp : aggregateAll cfg prev so defs with
+    | ok a' => rw [hm, hp] at h; exact absurd h (by simp [MemoRel])
+    | err e' => rw [hm, hp] at h; simp only [MemoRel] at h; rw [h]; rfl
+    | panic => rw [hm, hp] at h; exact absurd h (by simp [MemoRel])
+  | panic =>
+    cases hp : aggregateAll cfg prev so defs with
+    | ok a' => rw [hm, hp] at h; exact absurd h (by simp [MemoRel])
+    | err e' => rw [hm, hp] at h; exact absurd h (by simp [MemoRel])
+    | panic => rfl
+
+/-- every pair in the `attempted` set of a finished loop either has an aggregate or is a pair whose
+    aggregation stores nothing (no timestamped predecessor, aggregator returned an error / nothing) -/
+theorem attempted_pairs_stored_or_failing (cfg : Cfg) (prev : Outcome) (so : GoMap Nat (List (Option SV)))
+    (defs : List (Nat × ChanDef)) (a : GoMap (Nat × Nat) SV) (att : List (Nat × Nat))
+    (h : aggregateAllMemo cfg prev so defs = .ok (a, att)) :
+    ∀ k ∈ att, a.contains k = true ∨ Fails cfg prev so k := by
+  have hr := aggregateAllMemo_rel cfg prev so defs
+  rw [h] at hr
+  cases hp : aggregateAll cfg prev so defs with
+  | ok a' => rw [hp] at hr; exact hr.2
+  | err e => rw [hp] at hr; exact absurd hr (by simp [MemoRel])
+  | panic => rw [hp] at hr; exact absurd hr (by simp [MemoRel])
+
+/-- non-vacuity: two channels mention the median of stream 7, nobody reported a value — the pair fails,
+    is tried once and the second mention is skipped by the `attempted` set -/
+example : aggregateAllMemo ⟨1, 1, 1, false⟩ { stage := stageProduction, ts := 0, defs := [], va := [], aggs := [] } []
+    [(1, ⟨2, [⟨7, aggMedian⟩], []⟩), (2, ⟨2, [⟨7, aggMedian⟩], []⟩)] = .ok ([], [(7, aggMedian)]) := by decide
 
 end DSV.Props.C18
